@@ -1,12 +1,12 @@
-\* thorough: LSR with 3 temperatures and <= 3 calls
+\* thorough: exhaustive design model, LSR: 3 slopes x 3 intercepts x 21 reactions x 7 x 7 parts, 2 temperatures, <= 2 calls
 SPECIFICATION Spec
 CONSTANTS
   Slopes <- MCSlopes
   Icpts <- MCIcpts
   Energies <- MCEnergies
-  Temps = {250, 500, 1000}
+  Temps = {250, 500}
   MaxN = 1
-  MaxOps = 3
+  MaxOps = 2
   Variant = "required"
   Kinds = {"lsr"}
   Stoichs = {1, 2}
